@@ -51,7 +51,7 @@ CHECKS = {
     floors={'C17.laws': {'precondition-true': 0.40}, 'C17.hist': {'model-reaches-NaN': 0.15, 'all-finite': 0.15}}),
  'C18': dict(
     rule="(finite raw x, count in [INT_MIN,63]) for both shifts, a quarter of the cases straddling the range limit; pairs of raw values for &; non-trivial = negative count, count in {0,62,63}, negative x, x*2^r out of range, negative & operand",
-    clauses=[rc('C18.shift', 12000000, 480000000), rc('C18.and', 6000000, 240000000), sweep('C18.gridshift'), sweep('C18.gridand')],
+    clauses=[rc('C18.shift', 12000000, 480000000), rc('C18.and', 6000000, 240000000), rc('C18.const', 4000000, 160000000, kprog=True), sweep('C18.gridshift'), sweep('C18.gridand')],
     floors={'C18.shift': {'negative-count': 0.1, 'shl-out-of-range': 0.1}}),
 
  'C09': dict(
@@ -101,7 +101,7 @@ def _lit(v):
 def ce_compile(env, kcfg, cases, tag):
     """cases: list of (name, a, b, c, expected). Returns list of (index, kind, message)."""
     cc, std, defs = kcfg
-    src = os.path.join(env['work'], 'ce_%s_%s_%s.cc' % (cc.replace('+', 'p'), std.replace('+', 'p'), tag))
+    src = os.path.join(env['work'], 'ce_%s_%s_%s_%d.cc' % (cc.replace('+', 'p'), std.replace('+', 'p'), tag, abs(hash(str(cases[:3]))) % 100000))
     with open(src, 'w') as f:
         f.write('#include "ce_entries.h"\n')
         for i, (n, a, b, c, e) in enumerate(cases):
@@ -120,11 +120,11 @@ def ce_compile(env, kcfg, cases, tag):
         return None, r.stdout[-2000:]
     # the reason clang/gcc give for a rejection is on the following note/error lines; keep a little context
     return out, r.stdout
-def ce_engine(env, gen='c08', clause='C08.diff', cid='C08.ce'):
+def ce_engine(env, gen='c08', clause='C08.diff', cid='C08.ce', n=None):
     prop, tier, seed = env['prop'], env['tier'], env['seed']
-    n = 8000 if tier == 'quick' else 60000
+    if n is None: n = 8000 if tier == 'quick' else 60000
     sos = [env['paths'][k] for k in sorted(env['paths']) if not k.startswith('S-')]
-    casefile = os.path.join(env['work'], 'ce_cases.txt')
+    casefile = os.path.join(env['work'], 'ce_cases_%s.txt' % clause.replace('.', '_'))
     r = subprocess.run([env['exe'], 'emit', clause, '--gen', gen, '--seed', str(seed), '--n', str(n * 2), '--out', casefile] + sos, stdout=subprocess.PIPE, stderr=subprocess.PIPE, text=True)
     res = dict(violations=[], errors=[], known_hits={})
     if r.returncode != 0: res['errors'].append('emit failed: ' + r.stderr[-500:]); return res
@@ -175,7 +175,19 @@ def ce_engine(env, gen='c08', clause='C08.diff', cid='C08.ce'):
         accepted_per_configuration=per_cfg, emit_stats=stats,
         samples=[dict(entry=c[0], args=list(c[1:4]), runtime_value=c[4]) for c in (list(nt)[:3] + cases[:3])])
     return res
-CHECKS['C08']['extra'] = [ce_engine]
+CET_CLAUSES = ['C01.addsub', 'C02.mulff', 'C02.mulint', 'C03.divff', 'C03.divint', 'C16.int', 'C18.shift', 'C15.floorceil', 'C14.hypot', 'C11.atan2', 'C13.sqrtrc', 'C04.toint', 'C04.fromint', 'C10.rel', 'C09.period']
+def cet_engine(env):
+    # targeted constant evaluation: the same E4 machinery, driven by each property clause's own generator
+    out = dict(violations=[], errors=[], known_hits={}); tot = 0; dn = 0; per = {}; samples = []
+    for cl in CET_CLAUSES:
+        r = ce_engine(env, gen='clause', clause=cl, cid='C08.cet', n=(1500 if env['tier'] == 'quick' else 12000))
+        out['violations'] += r.get('violations', [])[:1]; out['errors'] += r.get('errors', [])
+        e = r.get('evidence') or {}; tot += e.get('evaluations', 0); dn += e.get('distinct_nontrivial', 0); per[cl] = e.get('evaluations', 0); samples += e.get('samples', [])[:1]
+        if len(out['violations']) >= 3: break
+    out['evidence'] = dict(id='C08.cet', engine='generated constant-evaluation programs, targeted', evaluations=tot, executions=tot * len(K_CONFIGS), distinct_nontrivial=dn, exhaustive=False,
+        rule='as C08.ce, but the cases come from the targeted generators of the property clauses %s (product- and quotient-targeted operand pairs, planted windows, type limits, pole sets), mapped onto the corresponding entry point; compile-time value must equal the run-time value on 6 compile-time configurations' % ', '.join(CET_CLAUSES), cases_per_clause=per, samples=samples)
+    return out
+CHECKS['C08']['extra'] = [ce_engine, cet_engine]
 CHECKS['C07'].setdefault('extra', []).append(lambda env: ce_engine(env, gen='c07', clause='C07.entry', cid='C07.ce'))
 
 # ----------------------------------------------------------------------------- engine E3: libFuzzer
